@@ -378,10 +378,14 @@ type Script struct {
 	Conns []net.Conn
 	Errs  []error
 	I     int
+	Hold  chan struct{} // when set: an exhausted script blocks until the harness closes this channel ("the base listener is closed")
 }
 
 func (l *Script) Accept() (net.Conn, error) {
 	if l.I >= len(l.Conns) {
+		if l.Hold != nil {
+			<-l.Hold
+		}
 		return nil, net.ErrClosed
 	}
 	c, e := l.Conns[l.I], l.Errs[l.I]
